@@ -279,13 +279,14 @@ func itemsFromFor(
 	var values []any  // The list of values to loop over
 	// Get the list from a matrix
 	if f.Matrix.Len() != 0 {
-		if err := resolveMatrixRefs(f.Matrix, cache); err != nil {
+		matrix, err := resolveMatrixRefs(f.Matrix, cache)
+		if err != nil {
 			return nil, nil, errors.TaskfileInvalidError{
 				URI: location.Taskfile,
 				Err: err,
 			}
 		}
-		return asAnySlice(product(f.Matrix)), nil, nil
+		return asAnySlice(product(matrix)), nil, nil
 	}
 	// Get the list from the explicit for list
 	if len(f.List) > 0 {
@@ -357,22 +358,27 @@ func itemsFromFor(
 	return values, keys, nil
 }
 
-func resolveMatrixRefs(matrix *ast.Matrix, cache *templater.Cache) error {
+// resolveMatrixRefs returns a matrix in which every `ref:` row carries the list
+// it resolves to for this call. The matrix of the task definition is shared by
+// every goroutine that compiles the task, so it must not be modified.
+func resolveMatrixRefs(matrix *ast.Matrix, cache *templater.Cache) (*ast.Matrix, error) {
 	if matrix.Len() == 0 {
-		return nil
+		return matrix, nil
 	}
-	for _, row := range matrix.All() {
-		if row.Ref != "" {
-			v := templater.ResolveRef(row.Ref, cache)
-			switch value := v.(type) {
-			case []any:
-				row.Value = value
-			default:
-				return fmt.Errorf("matrix reference %q must resolve to a list", row.Ref)
-			}
+	resolved := ast.NewMatrix()
+	for key, row := range matrix.All() {
+		if row.Ref == "" {
+			resolved.Set(key, row)
+			continue
 		}
+		v := templater.ResolveRef(row.Ref, cache)
+		value, ok := v.([]any)
+		if !ok {
+			return nil, fmt.Errorf("matrix reference %q must resolve to a list", row.Ref)
+		}
+		resolved.Set(key, &ast.MatrixRow{Ref: row.Ref, Value: value})
 	}
-	return nil
+	return resolved, nil
 }
 
 // product generates the cartesian product of the input map of slices.
